@@ -20,15 +20,18 @@ from .datatypes import Quantity, Coordinate, Ref, Bin, Uri, \
 from .version import LATEST_VER, VER_3_0
 from .zoneinfo import timezone_name
 
-URI_META = re.compile(r'([\\`\u0080-\uffff])')
-STR_META = re.compile(r'([\\"\$\u0080-\uffff])')
+# Characters that need escaping: the delimiters, everything outside ASCII and
+# the control characters that have no short escape (\b \f \n \r \t are
+# handled by STR_SUB).
+URI_META = re.compile(r'([\\`\x00-\x07\x0b\x0e-\x1f\u0080-\uffff])')
+STR_META = re.compile(r'([\\"\$\x00-\x07\x0b\x0e-\x1f\u0080-\uffff])')
 
 
 def str_sub(match):
     c = match.group(0)
     o = ord(c)
-    if o >= 0x0080:
-        # Unicode
+    if (o >= 0x0080) or (o < 0x0020):
+        # Unicode, or a control character
         return '\\u%04x' % o
     elif c in '\\"$':
         return '\\%s' % c
@@ -37,8 +40,8 @@ def str_sub(match):
 def uri_sub(match):
     c = match.group(0)
     o = ord(c)
-    if o >= 0x80:
-        # Unicode
+    if (o >= 0x80) or (o < 0x20):
+        # Unicode, or a control character
         return '\\u%04x' % o
     elif c in '\\`':
         return '\\%s' % c
